@@ -13,6 +13,9 @@ TRUE = z3.BoolVal(True)
 FALSE = z3.BoolVal(False)
 
 
+FN_REPEAT = z3.Function('repeat_byte', z3.IntSort(), z3.IntSort(), z3.SeqSort(z3.IntSort()))
+
+
 def zmax(a, b):
     return z3.If(a >= b, a, b)
 
@@ -207,11 +210,11 @@ def bytes_repeat(b, n):
         return VBytes(z3.Concat(*([b.z] * cn)) if cn > 1 else b.z), []
     if z3.is_int_value(ln) and ln.as_long() == 1:
         byte = z3.simplify(b.z[0])
-        r = z3.Const(fresh_name('rep'), sort_of(TBytes))
+        # a function of (byte, n): two occurrences with equal arguments are the same term
+        r = FN_REPEAT(byte, n.z)
         j = z3.Int(fresh_name('j'))
         fact = z3.And(z3.Length(r) == zmax(n.z, I(0)),
-                      z3.ForAll([j], z3.Implies(z3.And(0 <= j, j < z3.Length(r)), r[j] == byte),
-                                patterns=[r[j]]))
+                      z3.ForAll([j], z3.Implies(z3.And(0 <= j, j < z3.Length(r)), r[j] == byte)))
         v = VBytes(r)
         v_fact = fact
         return v, [('fact', v_fact)]
@@ -295,6 +298,13 @@ def slice_(seq, lo, hi):
         return seq, []
     if not isinstance(seq, (VBytes, VList, VStr)):
         raise VError(f'slice of {seq!r}')
+    if lo is None and hi is None:
+        # x[:] is a copy with the same value
+        if isinstance(seq, VBytes):
+            return VBytes(seq.z), []
+        if isinstance(seq, VStr):
+            return VStr(seq.z), []
+        return VList(seq.elem, seq.z), []
     n = z3.Length(seq.z)
     start, stop = slice_bounds(lo, hi, n)
     ln = zmax(stop - start, I(0))
